@@ -40,7 +40,7 @@ SNIPPETS = [
     ('unknown-builtin', 'out int n;\nparser { "a"; n = [$first]; }', True),
     ('last-in-default', 'out int n = 5;\nparser { n = [$last]; "a"; }', True),
     ('last-in-condition-point', 'parser { "a"; if $last == 1 { "b"; } }', True),
-    ('huge-repeat', 'parser { /a{600}/; }', False),
+    ('huge-repeat', 'parser { /a{300}/; }', False),
     ('huge-range-repeat', 'parser { /(ab){0,200}c/; }', False),
     ('nested-empty-star', 'parser { /(a*)*b/; }', False),
     ('nested-optional-star', 'parser { /(a?b?)*c/; }', False),
@@ -104,4 +104,72 @@ def edge_programs(rng, n_random):
         else:
             lines = [l.replace('"', '"\\q', 1) if (l.strip().startswith('"') and rng.random() < 0.3) else l for l in lines]
         items.append(('mut:%d:%d' % (s, k), '\n'.join(lines) + '\n', [rng.choice(['-O0', '-O1', '-O2', '-O3'])], False))
+    return items
+
+
+# ---------------------------------------------------------------------------
+# systematic cross product: every kind of expression in every statement position that takes one, against every
+# declared kind of name.  All of them are syntactically valid (the grammar has one `expr` for matches, values and
+# arguments); most are ill-typed and must be *diagnosed*, none may crash the compiler.
+CROSS_DECLS = ('out int n;\nout int{unsigned, size 1} u;\nout bool b;\nout enum{EA,EB} e;\nout str[4] s;\nout unterminated str[2] t;\n'
+               'out raw{uint16_t} r;\nhook h;\nfinishcode FC;\nyieldcode YC;\n'
+               'macro m0() { "q"; }\nmacro m1(expr x) { n = x; }\nmacro m2(match p) { p; }\nmacro m3(out o) { o = 1; }\n'
+               'macro m4(hook k) { k(); }\nmacro m5(loop l) { break l; }\nmacro m6(finishcode f) { finish f; }\nmacro m7(macro z) { z(); }\n')
+
+CROSS_EXPRS = [
+    'true', '5', '-3', '0x1f', '0b101', "'a'", "'\\n'", '"ab"', '"ab"i', '"6162"b', '""', 'n', 'u', 'b', 'e', 's', 't', 'r', 'h', 'EA',
+    'FC', 'YC', 'm0', 'nope', '/a+/', '/[a-c]x?/', 'b/41 42/', 'end', '("a" "b")', '("a" /b/)', '(n)', '[n]', '[n + 1]', '[s.len]', '[s[0]]',
+    '[$last]', '[b && n > 2]', '[e == EA]', '[-n]', '[!b]', '[1 << n]', "['a' + 1]", '[n / 0]', '[s]', '[h]', '[nope]', '[r.len]', '[r[1]]',
+    '[t[n]]', '[EA]', '[FC]', '[true]', '[1 / 0]', '[7 % 0]', '[6 / 3 * 2]', '[1 << 40]', '[1 << -1]', '[2 - 5]', '[1 | 2 & 3 ^ 4]', '[1 < 2]', '[!1]', '[-(3)]', '[5 == 5 && 1]',
+    '[1000000000000]', '[-9223372036854775808]', '[0x]'.replace('0x]', '0x10]'),
+]
+
+CROSS_POSITIONS = [
+    ('match', '"a"; %s; "z";'),
+    ('assign-int', '"a"; n = %s; "z";'),
+    ('assign-u8', '"a"; u = %s; "z";'),
+    ('assign-bool', '"a"; b = %s; "z";'),
+    ('assign-enum', '"a"; e = %s; "z";'),
+    ('assign-str', '"a"; s = %s; "z";'),
+    ('assign-raw', '"a"; r = %s; "z";'),
+    ('assign-hook', '"a"; h = %s; "z";'),
+    ('append-str', '"a"; s += %s; "z";'),
+    ('append-unterminated', '"a"; t += %s; "z";'),
+    ('append-raw', '"a"; r += %s; "z";'),
+    ('append-int', '"a"; n += %s; "z";'),
+    ('wait', '"a"; wait %s; "z";'),
+    ('case-predicate', '"a"; case { %s -> { n = 1; } "y" -> { n = 2; } } "z";'),
+    ('greedy-predicate', '"a"; greedy case { %s -> { n = 1; } prio 2 "yy" -> { n = 2; } } "z";'),
+    ('arg-expr', '"a"; m1(%s); "z";'),
+    ('arg-match', '"a"; m2(%s); "z";'),
+    ('arg-out', '"a"; m3(%s); "z";'),
+    ('arg-hook', '"a"; m4(%s); "z";'),
+    ('arg-loop', '"a"; loop L { "l"; m5(%s); } "z";'),
+    ('arg-finishcode', '"a"; m6(%s); "z";'),
+    ('arg-macro', '"a"; m7(%s); "z";'),
+    ('arg-to-hook', '"a"; h(%s); "z";'),
+    ('arg-surplus', '"a"; m0(%s); "z";'),
+    ('foreach-body', '"a"; foreach { %s; } do { n = [$last]; } "z";'),
+    ('optional-body', '"a"; optional { %s; } "z";'),
+    ('loop-body', '"a"; loop { %s; if n > 2 { break; } } "z";'),
+    ('try-body', 'try { "a"; %s; } catch { "z"; }'),
+]
+
+CROSS_CONDS = ['n', 'b', 'e == EA', 's.len', 's[0] == 97', '$last', "'a'", 'true', 'h', 's', 'nope', 'FC', '1 << 40', 'n / 0', 'r[0]', '!s', '-b', 'e', 'EA',
+               'n == "a"'.replace('"a"', "'a'"), 'b && s.len > n || !b']
+
+
+def cross_programs(rng=None, limit=None):
+    items = []
+    for pname, tmpl in CROSS_POSITIONS:
+        for x in CROSS_EXPRS:
+            if x.startswith('[') and pname.startswith('arg-') and pname not in ('arg-expr', 'arg-match', 'arg-to-hook', 'arg-surplus'):
+                continue
+            src = CROSS_DECLS + 'parser {\n    ' + tmpl % x + '\n}\n'
+            items.append(('cross:%s:%s' % (pname, x), src, ['-O1', '-fyield-support', '-feof-support'], False))
+    for c in CROSS_CONDS:
+        items.append(('cross:if:%s' % c, CROSS_DECLS + 'parser {\n    "a"; if %s { "x"; } elif %s { n = 1; } else { "y"; } "z";\n}\n' % (c, c), ['-O1', '-fyield-support'], False))
+        items.append(('cross:condact:%s' % c, CROSS_DECLS + 'parser {\n    "a"; if %s { n = 1; } "z";\n}\n' % c, ['-O2', '-fyield-support'], False))
+    if limit is not None and rng is not None and len(items) > limit:
+        items = rng.sample(items, limit)
     return items
